@@ -21,6 +21,17 @@ def _filter_dead_code(nodes: Iterable[ast.stmt]) -> list[ast.stmt]:
     return new_nodes
 
 
+def _prune_dead_code(node: ast.AST, *fields: str) -> None:
+    """Remove unreachable statements from the statement list `fields` of `node` in
+    place, before the node's children are visited.
+
+    Visiting dead statements has side effects on the optimizer's state: a `global`
+    declaration in unreachable code would be recorded as seen, and a later, live
+    declaration of the same name would then be dropped as a duplicate."""
+    for field in fields:
+        setattr(node, field, _filter_dead_code(getattr(node, field)))
+
+
 def _needs_eq_operator(arg: ast.expr) -> bool:
     return isinstance(arg, ast.Constant) and all(
         arg.value is not v for v in (True, False, None, ...)
@@ -157,6 +168,7 @@ class PythonASTOptimizer(ast.NodeTransformer):
 
     def visit_ExceptHandler(self, node: ast.ExceptHandler) -> ast.AST | None:
         """Eliminate dead code from except handler bodies."""
+        _prune_dead_code(node, "body")
         new_node = self.generic_visit(node)
         assert isinstance(new_node, ast.ExceptHandler)
         return ast.copy_location(
@@ -177,6 +189,7 @@ class PythonASTOptimizer(ast.NodeTransformer):
 
     def visit_FunctionDef(self, node: ast.FunctionDef) -> ast.AST | None:
         """Eliminate dead code from function bodies."""
+        _prune_dead_code(node, "body")
         with self._new_global_context():
             new_node = self.generic_visit(node)
         assert isinstance(new_node, ast.FunctionDef)
@@ -214,6 +227,7 @@ class PythonASTOptimizer(ast.NodeTransformer):
 
         If both the `body` and `orelse` body are empty, eliminate the node from the
         tree."""
+        _prune_dead_code(node, "body", "orelse")
         new_node = self.generic_visit(node)
         assert isinstance(new_node, ast.If)
 
@@ -262,6 +276,7 @@ class PythonASTOptimizer(ast.NodeTransformer):
 
     def visit_While(self, node: ast.While) -> ast.AST | None:
         """Eliminate dead code from while bodies."""
+        _prune_dead_code(node, "body", "orelse")
         new_node = self.generic_visit(node)
         assert isinstance(new_node, ast.While)
         return ast.copy_location(
@@ -275,6 +290,7 @@ class PythonASTOptimizer(ast.NodeTransformer):
 
     def visit_Try(self, node: ast.Try) -> ast.AST | None:
         """Eliminate dead code from except try bodies."""
+        _prune_dead_code(node, "body", "orelse", "finalbody")
         new_node = self.generic_visit(node)
         assert isinstance(new_node, ast.Try)
         new_body = _filter_dead_code(new_node.body)
